@@ -20,32 +20,8 @@ func baseCases(b Base) []fw.Case {
 	if err != nil {
 		panic(fmt.Sprintf("c03: base %s: %v", b.Name, err))
 	}
-	var out []fw.Case
 	p := Payload{Name: b.Name, Group: "hand", Mods: mods, Main: !b.NoMain, Construct: b.Construct}
-	if len(b.Tags) > 0 {
-		out = append(out, fw.MkCase("c03-hand-"+b.Name, "hand", p, b.Tags...))
-	} else {
-		tagSet := map[string]bool{}
-		for _, s := range parsed.Sites {
-			for _, t := range s.Tags {
-				tagSet[t] = true
-			}
-		}
-		pm := p
-		pm.SkipTags = true
-		out = append(out, fw.MkCase("c03-hand-"+b.Name, "hand", pm))
-		tags := make([]string, 0, len(tagSet))
-		for t := range tagSet {
-			tags = append(tags, t)
-		}
-		sort.Strings(tags)
-		for _, t := range tags {
-			pt := p
-			pt.Only = t
-			pt.NoTypes = true
-			out = append(out, fw.MkCase("c03-hand-"+b.Name+"-tag-"+t, "hand", pt, t))
-		}
-	}
+	out := splitCases("c03-hand-"+b.Name, "hand", p, b.Tags, parsed)
 	if !b.NoMain {
 		// a well-typed program with a main function is accepted whether or not the host requires one
 		pa := p
@@ -61,6 +37,36 @@ func baseCases(b Base) []fw.Case {
 		pr.Rule = "main"
 		pr.NoTypes = true
 		out = append(out, fw.MkCase("c03-hand-"+b.Name+"-mainrequired", "hand", pr, b.Tags...))
+	}
+	return out
+}
+
+// splitCases makes the main case of a program (mutants whose site carries no tag, type
+// expectations) and one case per site tag (only the mutants carrying it). Every case carries the
+// program-level tags; a tag case additionally carries its site tag, so that a failure can only be
+// matched to the known finding that poisons exactly this construct.
+func splitCases(id, kind string, p Payload, progTags []string, parsed mutate.Parsed) []fw.Case {
+	var out []fw.Case
+	pm := p
+	pm.SkipTags = true
+	out = append(out, fw.MkCase(id, kind, pm, progTags...))
+	tagSet := map[string]bool{}
+	for _, s := range parsed.Sites {
+		for _, t := range s.Tags {
+			tagSet[t] = true
+		}
+	}
+	tags := make([]string, 0, len(tagSet))
+	for t := range tagSet {
+		tags = append(tags, t)
+	}
+	sort.Strings(tags)
+	for _, t := range tags {
+		pt := p
+		pt.Only = t
+		pt.NoTypes = true
+		ct := append(append([]string{}, progTags...), t)
+		out = append(out, fw.MkCase(id+"-tag-"+t, kind, pt, ct...))
 	}
 	return out
 }
